@@ -86,6 +86,38 @@ def forms(e, vs, widths=None, subst=None):
             for i, f in enumerate(p):
                 out[i] ^= f
         return out
+    if op in ('&', '|'):
+        # bitwise AND / OR stay affine where, bit by bit, all operands but one are constants (a mask selected by flags
+        # that a caller has replaced by constants)
+        parts = [forms(a, vs, widths, subst) for a in e.args]
+        w = max(len(p) for p in parts)
+        unit, absorb = (1, 0) if op == '&' else (0, 1)
+        out = []
+        for i in range(w):
+            bits = [p[i] if i < len(p) else 0 for p in parts]
+            if absorb in bits:
+                out.append(absorb)
+                continue
+            rest = [b for b in bits if b != unit]
+            if len(rest) > 1:
+                raise NotAffine('%s of two non-constant bits: %s' % (op, e.canon()[:80]))
+            out.append(rest[0] if rest else unit)
+        return out
+    if op == 'mux' and len(e.args) == 3:
+        c = forms(e.args[0], vs, widths, subst)
+        if any(f not in (0, 1) for f in c):
+            raise NotAffine('Mux on a non-constant condition: %s' % e.canon()[:80])
+        a, b = forms(e.args[1], vs, widths, subst), forms(e.args[2], vs, widths, subst)
+        w = max(len(a), len(b))
+        pick = a if any(c) else b
+        return list(pick) + [0] * (w - len(pick))
+    if op in ('==', '!=') and len(e.args) == 2:
+        a, b = forms(e.args[0], vs, widths, subst), forms(e.args[1], vs, widths, subst)
+        w = max(len(a), len(b))
+        a, b = a + [0] * (w - len(a)), b + [0] * (w - len(b))
+        if any(f not in (0, 1) for f in a + b):
+            raise NotAffine('comparison of non-constant values: %s' % e.canon()[:80])
+        return [int((a == b) == (op == '=='))]
     if op == 'call' and e.args and e.args[0] == 'xor' and len(e.args) == 2:
         acc = 0
         for f in forms(e.args[1], vs, widths, subst):        # x.xor(): the XOR of all bits of x
